@@ -111,6 +111,8 @@ def run(ctx, tier):
     ctx.rule("R2", "hex table format and use shape")
     ctx.rule("R3", "component <-> encode set map")
     ctx.rule("R3b", "functions that receive the set as a parameter encode only with it")
+    ctx.rule("R10", "percent_encode(input, set, index) is given the index found by percent_encode_index(input, set), unmodified (or 0): "
+                    "the first `index` bytes are copied without being tested")
     ctx.rule("R4", "decode-side tables map exactly the hex digits")
     ctx.rule("R5", "encoder loop: hex on bit_at true edge, verbatim on false edge, same byte")
     ctx.rule("R6", "bit_at layout")
@@ -233,6 +235,51 @@ def check_config(ctx, fx, cfg):
                           "%s is called with %s instead of the set parameter" % (n.get("name"), X.show(a1)),
                           where=s.get("loc", "").replace("/repo/", ""))
     ctx.floor("R3b", ngen, 2, "functions taking the encode set as a parameter")
+
+    # ---- R10: percent_encode(input, set, index) copies the first `index` bytes WITHOUT looking at them ---------
+    # so `index` may only be the position percent_encode_index(input, same set) found (the first byte that needs
+    # escaping, input.size() when none does), or 0.  Anything computed from it (idx + 1, ...) lets a byte of the set through.
+    n10 = 0
+    for f in fx.functions:
+        if not f.get("blocks") or not C.first_party(f):
+            continue
+        inits = {}          # local id -> (input text, set refs) for `size_t idx = percent_encode_index(input, set)`
+        rewritten = set()
+        for b in f["blocks"]:
+            for st in b["stmts"]:
+                if st["k"] == "decl":
+                    for v in st["vars"]:
+                        i0 = X.strip(v.get("init")) if v.get("init") is not None else None
+                        if isinstance(i0, dict) and i0.get("k") == "call" and i0.get("qname") == "ada::unicode::percent_encode_index":
+                            inits[v["id"]] = (X.show(i0["args"][0]), tuple(set_refs(i0["args"][1])) or X.show(i0["args"][1]))
+                for n in X.stmt_nodes(st):
+                    if n.get("k") == "assign" and X.strip(n["lhs"]).get("k") == "ref":
+                        rewritten.add(X.strip(n["lhs"]).get("id"))
+                    if n.get("k") == "un" and n.get("op") in ("++", "--", "p++", "p--") and X.strip(n["e"]).get("k") == "ref":
+                        rewritten.add(X.strip(n["e"]).get("id"))
+        for n, st, b in C.all_nodes(f):
+            if n.get("k") == "call" and n.get("qname") == "ada::unicode::percent_encode" and len(n.get("args", [])) == 3 \
+                    and "size_t" in n.get("callee", ""):
+                n10 += 1
+                a2 = X.strip(n["args"][2])
+                ok, why = False, "the verbatim-prefix length is `%s`" % X.show(a2)
+                if X.const_val(a2) == 0 and a2.get("k") == "lit":
+                    ok = True
+                elif a2.get("k") == "call" and a2.get("qname") == "ada::unicode::percent_encode_index":
+                    ok = X.show(a2["args"][0]) == X.show(n["args"][0]) and X.show(a2["args"][1]) == X.show(n["args"][1])
+                elif a2.get("k") == "ref" and a2.get("id") in inits and a2.get("id") not in rewritten:
+                    src, sets = inits[a2["id"]]
+                    mine = tuple(set_refs(n["args"][1])) or X.show(n["args"][1])
+                    ok = src == X.show(n["args"][0]) and sets == mine
+                    if not ok:
+                        why = "`%s` was computed by percent_encode_index(%s, %s) but is used for percent_encode(%s, %s, ..)" % (
+                            X.show(a2), src, sets, X.show(n["args"][0]), mine)
+                ctx.check("R10", "%s: verbatim prefix of percent_encode(%s, .., %s)" % (f["key"].split("(")[0], X.show(n["args"][0]), X.show(a2)),
+                          ok, "the index found by percent_encode_index on the same input and set (or 0)",
+                          "%s: percent_encode copies the first `index` bytes without testing them, so the index must be exactly the "
+                          "one percent_encode_index(same input, same set) returned, unmodified" % why,
+                          where=st.get("loc", "").replace("/repo/", ""))
+    ctx.floor("R10", n10, 3 if cfg == "nopattern" else 5, "calls of percent_encode with a verbatim-prefix index")
 
     # ---- R3 ------------------------------------------------------------------
     nref = 0
